@@ -332,6 +332,7 @@ impl CheckCtx {
         let nworkers = self.workers.max(1);
         // watchdog state: which run every worker is executing and since when (ms since t0)
         let inflight: Vec<(AtomicU64, AtomicU64)> = (0..nworkers).map(|_| (AtomicU64::new(0), AtomicU64::new(0))).collect();
+        let tids: Vec<AtomicU64> = (0..nworkers).map(|_| AtomicU64::new(0)).collect();
         let finished = AtomicUsize::new(0);
         let limit_ms = run_timeout_ms();
         let verif_dir = self.verif_dir.clone();
@@ -340,21 +341,41 @@ impl CheckCtx {
         let started = self.started;
         std::thread::scope(|sc| {
             // a run that does not return is reported like any other violation: the library loops forever
-            sc.spawn(|| loop {
+            sc.spawn(|| {
+              // per worker: the run last seen in flight and the thread's CPU time when it was first seen
+              let mut seen: Vec<(u64, Option<u64>)> = vec![(0, None); nworkers];
+              loop {
                 std::thread::sleep(std::time::Duration::from_millis(200));
                 if finished.load(Ordering::SeqCst) >= nworkers {
                     break;
                 }
                 let now = t0.elapsed().as_millis() as u64;
-                for slot in inflight.iter() {
+                for (w, slot) in inflight.iter().enumerate() {
                     let r = slot.0.load(Ordering::SeqCst);
                     let since = slot.1.load(Ordering::SeqCst);
-                    if r > 0 && now.saturating_sub(since) > limit_ms {
+                    if r == 0 {
+                        seen[w] = (0, None);
+                        continue;
+                    }
+                    let wall = now.saturating_sub(since);
+                    // only runs that are already slow cost a /proc read
+                    if wall < 1000.min(limit_ms / 2) {
+                        continue;
+                    }
+                    let tid = tids[w].load(Ordering::SeqCst);
+                    if seen[w].0 != r {
+                        seen[w] = (r, thread_cpu_ms(tid));
+                    }
+                    let cpu = match (seen[w].1, thread_cpu_ms(tid)) {
+                        (Some(a), Some(b)) => Some(b.saturating_sub(a) + 1000.min(limit_ms / 2)),
+                        _ => None,
+                    };
+                    if over_limit(wall, cpu, limit_ms) {
                         let run = r - 1;
                         let seed = run_seed(master, prop, S::NAME, run);
                         let case = S::generate(seed, run, prop, tier);
                         let v = Violation { property: prop, class: format!("{}/hang", S::NAME), step: 0,
-                            detail: format!("the run did not return within {} s: an operation of the library does not terminate", limit_ms / 1000) };
+                            detail: format!("the run did not return within {} s of CPU time: an operation of the library does not terminate", limit_ms / 1000) };
                         let file = write_replay::<S>(&verif_dir, prop, master, run, seed, &case, &v);
                         println!("VIOLATION property={} replay={}", prop, file);
                         println!("  class={} scenario={} run={} :: {}", v.class, S::NAME, run, v.detail);
@@ -380,13 +401,16 @@ impl CheckCtx {
                         std::process::exit(1);
                     }
                 }
+              }
             });
             for w in 0..nworkers {
                 let inflight = &inflight;
+                let tids = &tids;
                 let finished = &finished;
                 let total = &total;
                 let next = &next;
                 sc.spawn(move || {
+                    tids[w].store(current_tid(), Ordering::SeqCst);
                     let mut acc = Acc::new();
                     loop {
                         let start = next.fetch_add(chunk, Ordering::Relaxed);
@@ -549,9 +573,46 @@ pub fn mk_abort_replay<S: Scenario>(verif_dir: &str, prop: &'static str, master:
     (write_replay::<S>(verif_dir, prop, master, run, seed, &case, &v), S::describe(&case))
 }
 
-/// per-run time limit of the watchdog (PDSIM_RUN_TIMEOUT_S, default 120 s)
+/// per-run limit of the watchdog (PDSIM_RUN_TIMEOUT_S, default 120 s), counted in CPU time of the
+/// executing thread: a loaded machine slows a run down but cannot turn it into a verdict
 pub fn run_timeout_ms() -> u64 {
     std::env::var("PDSIM_RUN_TIMEOUT_S").ok().and_then(|s| s.parse::<u64>().ok()).unwrap_or(120) * 1000
+}
+
+/// wall-clock backstop: a run that has not returned after this many times the CPU limit is given up
+/// on even if the thread's CPU time cannot be read or does not advance
+pub const WALL_BACKSTOP_FACTOR: u64 = 15;
+
+/// kernel thread id of the calling thread (Linux: /proc/thread-self -> <pid>/task/<tid>); 0 if unknown
+pub fn current_tid() -> u64 {
+    std::fs::read_link("/proc/thread-self").ok().and_then(|p| p.file_name().and_then(|f| f.to_str().and_then(|s| s.parse().ok()))).unwrap_or(0)
+}
+
+/// CPU time (user + system) a thread of this process has consumed, in ms; None if it cannot be read.
+/// /proc/<pid>/task/<tid>/stat counts in clock ticks of 1/100 s (USER_HZ is 100 on every Linux ABI).
+pub fn thread_cpu_ms(tid: u64) -> Option<u64> {
+    if tid == 0 {
+        return None;
+    }
+    let t = std::fs::read_to_string(format!("/proc/self/task/{}/stat", tid)).ok()?;
+    let rest = &t[t.rfind(')')? + 1..];
+    let f: Vec<&str> = rest.split_whitespace().collect();
+    // after the command name: state is f[0], utime f[11], stime f[12]
+    let ut: u64 = f.get(11)?.parse().ok()?;
+    let st: u64 = f.get(12)?.parse().ok()?;
+    Some((ut + st) * 10)
+}
+
+/// Decides whether a run that has been in flight for `wall_ms` and has consumed `cpu_ms` (if known)
+/// counts as non-terminating.
+pub fn over_limit(wall_ms: u64, cpu_ms: Option<u64>, limit_ms: u64) -> bool {
+    if wall_ms <= limit_ms {
+        return false;
+    }
+    match cpu_ms {
+        Some(c) => c > limit_ms || wall_ms > limit_ms * WALL_BACKSTOP_FACTOR,
+        None => wall_ms > limit_ms * WALL_BACKSTOP_FACTOR,
+    }
 }
 
 pub fn round3(x: f64) -> f64 {
@@ -562,12 +623,32 @@ pub fn round3(x: f64) -> f64 {
 /// (the helper thread is abandoned then).
 pub fn execute_with_timeout<S: Scenario>(case: &S::Case, prop: &'static str) -> Option<Outcome> {
     let (tx, rx) = std::sync::mpsc::channel();
+    let (ttx, trx) = std::sync::mpsc::channel();
     let c = case.clone();
     std::thread::spawn(move || {
+        let _ = ttx.send(current_tid());
         let out = S::execute(&c, prop);
         let _ = tx.send(out);
     });
-    rx.recv_timeout(std::time::Duration::from_millis(run_timeout_ms())).ok()
+    let tid = trx.recv_timeout(std::time::Duration::from_secs(5)).unwrap_or(0);
+    let cpu0 = thread_cpu_ms(tid);
+    let limit = run_timeout_ms();
+    let t0 = Instant::now();
+    loop {
+        match rx.recv_timeout(std::time::Duration::from_millis(limit.min(1000).max(10))) {
+            Ok(o) => return Some(o),
+            Err(std::sync::mpsc::RecvTimeoutError::Disconnected) => return None,
+            Err(std::sync::mpsc::RecvTimeoutError::Timeout) => {
+                let cpu = match (cpu0, thread_cpu_ms(tid)) {
+                    (Some(a), Some(b)) => Some(b.saturating_sub(a)),
+                    _ => None,
+                };
+                if over_limit(t0.elapsed().as_millis() as u64, cpu, limit) {
+                    return None;
+                }
+            }
+        }
+    }
 }
 
 /// Greedy delta debugging: accept a candidate iff the same violation class recurs.
